@@ -243,10 +243,11 @@ user.close:  close(updateQuitCh); updateWG.Wait(); updateInjector.Close(); conne
 Backend.GetState (LOGIN):  usersLock.Lock(); ...; user.newState(): statesLock.Lock; states[id] = st; statesWG.Add(1)
 session.serve: select { ... case <-state.Done(): return ... };  defer session.done(ctx)
 session.done -> state.ReleaseState(ctx) -> user.removeState(ctx, st):
-    ids, err := db.Read(ctx, ...); if err != nil { return err }          // <- returns before statesWG.Done()
+    ids, err := db.Read(ctx, ...); if err != nil { log; ids = nil }      // (630a898; before: `return err`, i.e. no statesWG.Done())
     statesLock.Lock; delete(states, st.StateID); Unlock
     defer statesWG.Done()
-    db.Write(...); store.Delete(...); st.Close()
+    if err := db.Write(...); err != nil { return err }                    // <- returns before st.Close()
+    store.Delete(...); return st.Close()                                  // closes the state's update queue
 ```
 One user, `n` sessions.  Each critical section of statesLock is one atomic step. -/
 
@@ -279,13 +280,14 @@ structure TState where
   updaterRunning : Bool := true
   quit : Bool := false         -- updateQuitCh closed
   wg : Nat := 0                -- statesWG counter
-  leaked : Nat := 0            -- removeState calls that returned before `defer statesWG.Done()`
+  unclosedStates : Nat := 0    -- removeState calls that returned before `st.Close()`: the update queue's goroutine stays
   dbOpen : Bool := true
   storeOpen : Bool := true
   useAfterClose : Bool := false  -- a session touched the DB/store after user.close closed it
   -- environment switches (the named assumptions of `teardown_completes`)
   observes : Bool              -- every session loop observes Done (select case `<-state.Done()`)
   readFails : Bool             -- the DB read at the top of removeState can fail (e.g. cancelled context)
+  writeFails : Bool            -- the DB write in removeState can fail (e.g. cancelled context)
   connCloseFails : Bool        -- updateInjector.Close / connector.Close can return an error
 deriving Repr
 
@@ -297,6 +299,7 @@ inductive TStep where
   | readFail (i : Nat)
   | lockDelete (i : Nat)
   | finishRel (i : Nat)         -- DB write, store delete, state.Close, deferred statesWG.Done()
+  | finishFail (i : Nat)        -- DB write fails: return err, deferred statesWG.Done(); state.Close is skipped
   | beginClose               -- RemoveUser/Close: usersLock.Lock()
   | closeQuit                -- close(updateQuitCh)
   | updaterExit              -- the update goroutine takes `case <-user.updateQuitCh`
@@ -311,9 +314,9 @@ deriving DecidableEq, Repr
 
 namespace TState
 
-def init (n : Nat) (observes readFails connCloseFails : Bool) : TState :=
+def init (n : Nat) (observes readFails writeFails connCloseFails : Bool) : TState :=
   { sess := List.replicate n .preauth, signalled := List.replicate n false,
-    observes, readFails, connCloseFails }
+    observes, readFails, writeFails, connCloseFails }
 
 def sessAt (s : TState) (i : Nat) : Sess := s.sess.getD i .gone
 
@@ -342,6 +345,7 @@ def enabled (s : TState) : TStep → Bool
   | .readFail i => s.sessAt i == .relRead && s.readFails
   | .lockDelete i => s.sessAt i == .relLock
   | .finishRel i => s.sessAt i == .relWrite
+  | .finishFail i => s.sessAt i == .relWrite && s.writeFails
   | .beginClose => s.closer == .idle && !s.usersLock
   | .closeQuit => s.closer == .locked
   | .updaterExit => s.updaterRunning && s.quit
@@ -358,11 +362,15 @@ def apply (s : TState) : TStep → TState
   | .leave i => if s.sessAt i == .preauth then s.setSess i .gone else s.setSess i .relRead
   | .observeDone i => s.setSess i .relRead
   | .readOk i => { s.setSess i .relLock with useAfterClose := s.useAfterClose || !s.dbOpen }
-  | .readFail i => { s.setSess i .gone with leaked := s.leaked + 1 }
+  | .readFail i =>   -- logged, messageIDs = nil, carries on
+    { s.setSess i .relLock with useAfterClose := s.useAfterClose || !s.dbOpen }
   | .lockDelete i => s.setSess i .relWrite
   | .finishRel i =>
     let s' := s.setSess i .gone
     { s' with wg := s.wg - 1, useAfterClose := s.useAfterClose || !s.dbOpen || !s.storeOpen }
+  | .finishFail i =>
+    let s' := s.setSess i .gone
+    { s' with wg := s.wg - 1, unclosedStates := s.unclosedStates + 1, useAfterClose := s.useAfterClose || !s.dbOpen }
   | .beginClose => { s with closer := .locked, usersLock := true }
   | .closeQuit => { s with closer := .waitUpdater, quit := true }
   | .updaterExit => { s with updaterRunning := false }
@@ -385,7 +393,7 @@ def run (s : TState) (steps : List TStep) : TState := steps.foldl step s
 /-- all steps that exist for `n` sessions -/
 def allSteps (n : Nat) : List TStep :=
   ((List.range n).flatMap fun i =>
-    [.login i, .leave i, .observeDone i, .readOk i, .readFail i, .lockDelete i, .finishRel i]) ++
+    [.login i, .leave i, .observeDone i, .readOk i, .readFail i, .lockDelete i, .finishRel i, .finishFail i]) ++
   [.beginClose, .closeQuit, .updaterExit, .updaterWaited, .connOk, .connFail, .signalAll, .waitDone,
    .storeClosed, .dbClosed]
 
@@ -398,6 +406,7 @@ def TStep.must : TStep → Bool
   | .login _ => false
   | .leave _ => false
   | .readFail _ => false
+  | .finishFail _ => false
   | .connFail => false
   | _ => true
 
